@@ -561,12 +561,38 @@ def scoped_programs() -> list[Prog]:
     return list(_SCOPED)
 
 
+def ast_max_abs(a, dims) -> int:
+    """largest magnitude of any sub-expression under a concrete binding (Python ints)"""
+    k = a[0]
+    if k in ("sym", "const"):
+        return abs(ev_ast(a, dims))
+    subs = [x for x in a[1:] if isinstance(x, tuple)]
+    try:
+        here = abs(ev_ast(a, dims))
+    except ZeroDivisionError:
+        return 1 << 62
+    return max([here] + [ast_max_abs(x, dims) for x in subs])
+
+
+def int32_safe(a, nsym: int) -> bool:
+    """dimension values are int32 in JAX (x64 off) and in the exported dim_as_value output: keep every
+    sub-expression far below 2^31 on the whole lattice (the trusted-base assumption 'no overflow')"""
+    for p in itertools.product((1, 7), repeat=nsym):
+        if ast_max_abs(a, list(p)) >= (1 << 24):
+            return False
+    return True
+
+
 def random_programs(rng: common.Rng, n: int) -> list[Prog]:
     out = []
     for i in range(n):
         nsym = rng.choice([1, 2, 2, 3])
         nexpr = rng.choice([1, 2, 3])
-        asts = [gen_ast(rng, nsym, rng.choice([1, 2, 2, 3])) for _ in range(nexpr)]
+        asts = []
+        while len(asts) < nexpr:
+            a = gen_ast(rng, nsym, rng.choice([1, 2, 2, 3]))
+            if int32_safe(a, nsym):
+                asts.append(a)
         out.append(dim_program(f"rand{i}", asts, nsym, rng, rebind=rng.chance(0.25)))
     return out
 
